@@ -169,7 +169,8 @@ impl Run {
         }
         let creator = w.user("creator");
         let code_id = w.app.store_code(token_code());
-        let sink_id = w.app.store_code(Box::new(Sink));
+        // the receiving contract can be switched to refuse (fault injection: a Send whose receiver fails must roll back)
+        let sink_id = w.app.store_code(Box::new(crate::cw3::Flaky));
         let sink = w.app.instantiate_contract(sink_id, creator.clone(), &Empty {}, &[], "sink", None).unwrap();
         w.register("k1", &sink);
         let legacy = cfg.get("legacy").and_then(|x| x.as_bool()).unwrap_or(false);
@@ -321,6 +322,11 @@ impl Run {
         let r: CallOut = match act.as_str() {
             "advance" => {
                 self.w.advance(n(&args, "dh"), n(&args, "dt"));
+                CallOut { ok: true, panic: false, err: String::new(), log: vec![], data: None }
+            }
+            "sinkfail" => {
+                let k1 = self.w.addr("k1");
+                self.w.app.wasm_sudo(k1, &json!({"on": args["on"].as_bool().unwrap_or(false)})).unwrap();
                 CallOut { ok: true, panic: false, err: String::new(), log: vec![], data: None }
             }
             "migrate" => {
@@ -535,6 +541,7 @@ pub fn random_run(rng: &mut Rng, run_no: u64, len: usize, out: &mut Out) {
                 let new = if rng.chance(1, 6) { "none".to_string() } else { rng.pick(&USERS).to_string() };
                 json!({"act":"update_minter","by":who,"args":{"new":new}})
             }
+            95 => json!({"act":"sinkfail","by":"env","args":{"on":rng.chance(1,2)}}),
             90..=94 => {
                 let who = if rng.chance(3, 4) && obs["mk"]["marketing"] != "none" { obs["mk"]["marketing"].as_str().unwrap().to_string() } else { by.clone() };
                 if rng.chance(1, 2) {
